@@ -664,7 +664,11 @@ def _predicate_on_text(idx, fl, name, TEXTY, SAFE):
     return None
 
 
+_SOFT = []
+
+
 def run(ctx, idx):
+    del _SOFT[:]
     A = K.anchors(idx)
     ctx.assume("Python semantics of attribute stores, properties and exceptions as modelled by the CFG builder")
     ctx.assume("six.raise_from and sys.exit never return (no-return table)")
@@ -680,5 +684,51 @@ def run(ctx, idx):
     rule_h(ctx, idx, A)
     rule_i(ctx, idx, A)
     rule_j(ctx, idx, A)
+    ctx.rule("C01.k", "A command resolves its references in the program it was put into, for as long as the command exists: the link is the object itself. Command / Program code does not hold the program (or a command) through weakref.ref / proxy / a Weak* collection - a weak link dies with the last outside reference to the program (reading a result then fails instead of running the dependencies) and is copied as it is by copy.deepcopy, so a cloned program's commands resolve their references in, and execute, the original's commands.")
+    n_links = 0
+    weak_undecided = None
+    for cls_ in [A.command, A.program]:
+        par_k = {}
+        for x_ in ast.walk(cls_.node):
+            for ch_ in ast.iter_child_nodes(x_):
+                par_k[id(ch_)] = x_
+        for c_ in ast.walk(cls_.node):  # every method, both halves of a property included
+            if isinstance(c_, ast.Call):
+                q_ = idx.qualname(cls_.module, c_.func, None) or ""
+                if q_.startswith("weakref.") and not isinstance(par_k.get(id(c_)), ast.Call):
+                    # made only once the command is finished (`if ... and self.<finished flag>:`): a finished command resolves
+                    # nothing any more - whether every copy / pickle path re-makes the link is not decided here
+                    up_ = c_
+                    fin_ = False
+                    while id(up_) in par_k:
+                        q2_ = par_k[id(up_)]
+                        if isinstance(q2_, ast.If) and any(up_ is b_ or any(up_ is y_ for y_ in ast.walk(b_)) for b_ in q2_.body):
+                            conj_ = q2_.test.values if isinstance(q2_.test, ast.BoolOp) and isinstance(q2_.test.op, ast.And) else [q2_.test]
+                            if any(isinstance(t_, ast.Attribute) and t_.attr == A.flag and isinstance(t_.value, ast.Name) for t_ in conj_):
+                                fin_ = True
+                        up_ = q2_
+                    if fin_:
+                        weak_undecided = "C01.k: `%s` (line %d) weakens the link of FINISHED commands only; whether a finished command is ever asked to resolve a reference again, and whether copies re-make the link, is not decided" % (K.src(c_)[:40], c_.lineno)
+                        continue
+                    n_links += 1
+                    ctx.violate("C01.k", "%s::%s::weak-link@%d" % (cls_.module.rel, cls_.name, n_links), cls_.module.rel, c_.lineno, "`%s` holds part of the model graph weakly: the link dies with the last outside reference and is not re-made by copy.deepcopy (a cloned program's commands then resolve references in the original)" % K.src(c_)[:60])
+    init_ = A.command.methods.get("__init__")
+    if init_ is None:
+        raise AnalysisError("C01.k: Command.__init__ vanished")
+    sn_ = K.self_name(init_)
+    stores_ = [n_ for n_ in own_nodes(init_.node) if isinstance(n_, ast.Assign) and any(isinstance(t_, ast.Attribute) and t_.attr == "program" and isinstance(t_.value, ast.Name) and t_.value.id == sn_ for t_ in n_.targets)]
+    ok_ = bool(stores_) and all(isinstance(n_.value, ast.Name) and n_.value.id in {a_.arg for a_ in init_.node.args.args} for n_ in stores_)
+    ctx.ob("C01.k", "%s::program-link" % init_.key, K.rel(init_), (stores_[0].lineno if stores_ else init_.node.lineno), ok_,
+           "the program handed to the constructor is kept as it is" if ok_ else "Command.__init__ does not keep the program it is given as a plain attribute")
+    if weak_undecided:
+        _SOFT.append(weak_undecided)
+    ctx.rule("C01.l", "What a finished producer holds is delivered to every consumer: DataParameter.clean - the one check that is applied to results of FINISHED commands only (the first consumer sees the producer unfinished and is checked against the declared output type) - accepts every array. A test of the element type or content there lets the first consumer through and refuses the second, and refuses every consumer when the program is run again.")
+    from .C20 import accepts_domain
+
+    accepts_domain(ctx, idx, "C01.l", only={"DataParameter"}, consequence="; ResultParameter.clean applies it to finished producers only, so a producer's first consumer is served and the second (or any consumer on a second run()) gets ParameterNotValid for the same result")
     ctx.count("modules", len(idx.modules))
     ctx.count("functions", len(idx.funcs))
+    if _SOFT:
+        msg_ = _SOFT[0]
+        del _SOFT[:]
+        raise AnalysisError(msg_)
